@@ -30,9 +30,16 @@ class Multiline:
     """
     prev = self.get(tagname)
     if prev is None:
+      had_datatype = tagname in self._datatype
       if datatype is not None:
         self.set_datatype(tagname, datatype)
-      self.set(tagname, value)
+      try:
+        self.set(tagname, value)
+      except:
+        if not had_datatype:
+          # (the datatype given with a refused value is not kept)
+          self._datatype.pop(tagname, None)
+        raise
       return
     elif not isinstance(prev, gfapy.FieldArray):
       if tagname in self.SINGLE_DEFINITION_TAGS:
